@@ -520,6 +520,9 @@ inductive CoreOp where
   | rotroot                   -- `SealManager.RotateBarrierRootKey` (sys/rotate/root)
   | sealC
   | unsealC (new : Bool)       -- with the current (`true`) or the previous share set
+  /-- a rekey (`sys/rekey`, `sys/rotate/root/update`) whose FIRST write — the stored keys under the new seal key — fails
+  and which is then cancelled -/
+  | rekeyFail (n t : Nat)
   deriving DecidableEq, Repr
 
 def validCfg (n t : Nat) : Bool :=
@@ -537,6 +540,11 @@ def rekeyWrites (kr : Keyring) (newSeal newRoot : Key) (n t : Nat) : List PWrite
       ([w0] ++ ws ++ [.put .kek (.enc nkr.active ak .kek (.val (.raw newSeal))), .put .sealcfg (.sealcfg n t)], .ok)
     | none => ([w0] ++ ws, .panic)
   | (ws, r) => ([w0] ++ ws, r)
+
+/-- the failed rekey before the repair F79: the seal's Shamir wrapper keeps the freshly generated seal key, which was
+never persisted and whose shares were never handed out -/
+def CoreSt.rekeyFailPoisoned (c : CoreSt) : CoreSt :=
+  { c with sealKey := sealKeyN c.nextS, nextS := c.nextS + 1, base := c.phys, writes := [] }
 
 /-- writes of `RotateBarrierRootKey`: stored keys (same seal key, new root key), then `RotateRootKey` -/
 def rotRootWrites (kr : Keyring) (sk newRoot : Key) : List PWrite × Res :=
@@ -610,6 +618,13 @@ def CoreSt.exec (c : CoreSt) : CoreOp → CoreSt × CoreRes
       | r' => ({ c with phys := applyWrites c.phys ws, base := c.phys, writes := ws }, .bar r')
     | _, _ => (c, .sealedErr)
   | .sealC => ({ c with bar := { c.bar with sealed := true, keyring := none } }, .ok)
+  | .rekeyFail n t =>
+    if !validCfg n t then (c, .badCfg) else
+    match c.bar.sealed, c.bar.keyring with
+    -- nothing was written; the seal's wrapper holds the key that matches storage again (repair F79: it had been given
+    -- the new, never persisted seal key before the write)
+    | false, some _ => ({ c with base := c.phys, writes := [] }, .bar .io)
+    | _, _ => (c, .sealedErr)
   | .unsealC new =>
     if !c.bar.sealed then (c, .uns .unsealed) else
     let ss := if new then c.cur else c.prev
